@@ -121,6 +121,37 @@ theorem weight_exceeds_one_off_domain :
       List.foldl_cons, List.foldl_nil, getPpy_id, getPm_id, prodL, if_true, Bool.false_eq_true, if_false, getP_massless]
     norm_num [abs_of_nonneg, abs_of_neg]
 
+/-- `cal_max_weight()` (optional; `scipy.optimize.minimize` is a parameter of the model, `xopt` the point it
+returns): the weight afterwards is the old weight divided by `1.001 · weight(xopt)` — all inputs. -/
+theorem calmax_rescales (r32 : ℝ → ℝ) (m0 : ℝ) (mass : List ℝ) (imp : Bool) (xopt ms : List ℝ) :
+    getWeightCal r32 m0 mass imp xopt ms
+      = getWeight r32 m0 mass imp ms / (getWeight r32 m0 mass true xopt * 1.001) :=
+  getWeightCal_eq r32 m0 mass imp xopt ms
+
+/-- … hence after `cal_max_weight()` the acceptance weight of a mass point is `≤ 1` **iff** the optimiser's point
+is within 0.1 % of that point's weight: the bound then rests entirely on `scipy.optimize.minimize` having found the
+global maximum (NOT verified; the search shows on the implementation that it often has not). -/
+theorem calmax_weight_le_one_iff (m0 : ℝ) (mass : List ℝ) (imp : Bool) (xopt ms : List ℝ)
+    (h : 0 < getWeight id m0 mass true xopt) :
+    getWeightCal id m0 mass imp xopt ms ≤ 1 ↔
+      getWeight id m0 mass imp ms ≤ 1.001 * getWeight id m0 mass true xopt := by
+  rw [getWeightCal_eq, div_le_one (by positivity), mul_comm]
+
+/-- With a non-optimal `xopt` the weight after `cal_max_weight()` exceeds one: three massless daughters of a parent
+of mass 1, optimiser point `M₁ = 0.1`, mass point `M₁ = 0.5` (both inside the generated domain): weight `> 3`. -/
+theorem calmax_weight_exceeds_one_example :
+    0 < getWeight id 1 [0, 0, 0] true [1 / 10] ∧ 3 < getWeightCal id 1 [0, 0, 0] true [1 / 10] [1 / 2] := by
+  constructor
+  · simp only [getWeight, wtMax, wtMaxAux, massImportances, massRange, massRangeAux, importancesAux, qListAux, sm0, sumMass, teCm,
+      List.reverse_cons, List.reverse_nil, List.nil_append, List.cons_append, List.headD_cons, List.drop_succ_cons, List.drop_zero,
+      List.foldl_cons, List.foldl_nil, getPpy_id, getPm_id, prodL, if_true, Bool.false_eq_true, if_false, getP_massless]
+    norm_num [abs_of_nonneg, abs_of_neg]
+  · rw [getWeightCal_eq]
+    simp only [getWeight, wtMax, wtMaxAux, massImportances, massRange, massRangeAux, importancesAux, qListAux, sm0, sumMass, teCm,
+      List.reverse_cons, List.reverse_nil, List.nil_append, List.cons_append, List.headD_cons, List.drop_succ_cons, List.drop_zero,
+      List.foldl_cons, List.foldl_nil, getPpy_id, getPm_id, prodL, if_true, Bool.false_eq_true, if_false, getP_massless]
+    norm_num [abs_of_nonneg, abs_of_neg]
+
 /-- **Flat density**: proposal density of the mass vector (`generate_mass`: each `M_{i+1}` uniform on
 `[M_i + r_{i+1}, b_i]`) × acceptance weight (with the importance factor) `= C · Π qᵢ` with
 `C = 1 / (Q^{n-2} · wtMax)` independent of the mass point — the accepted masses follow the recursive
